@@ -8,12 +8,12 @@ BUDGET = {"quick": 45, "thorough": 780}
 RULE = ("worlds with heterogeneous voltages, all battery models, noise tapes, scripted schedules addressing vacant "
         "stations, 20% StochasticNetwork worlds; non-trivial = >=1 period with a non-zero rate strictly below the pilot "
         "(battery-limited) and >=1 non-zero pilot sent to a vacant station; distinct = per-period history signature")
-PROBES = ["battery_limited", "vacant_pilot", "resume_json", "stochastic_world", "noisy_battery", "party_charged_its_ev_copies"]
+PROBES = ["battery_limited", "vacant_pilot", "resume_json", "stochastic_world", "noisy_battery", "party_charged_its_ev_copies", "second_life"]
 FAULT_DIMENSION = "scheduler crash + rerun / JSON round trip; adversarial noise tape; a scheduler that 'charges' the EV copies it was handed (look-ahead)"
 ASSUMPTIONS = ["station voltages are taken from the scenario, not from the network object",
                "battery charge is read from the battery object's stored charge attribute (observation only)"]
 
-P_CUSTOM = world.profile(faults={"crash": 0.4, "mutate": 0.4}, resume_modes=["rerun", "rerun", "json_str"], noise=0.4, heterovolt=0.8,
+P_CUSTOM = world.profile(second_life=0.15, faults={"crash": 0.4, "mutate": 0.4}, resume_modes=["rerun", "rerun", "json_str"], noise=0.4, heterovolt=0.8,
                          party={"scripted": 5, "uncontrolled": 2, "greedy": 2, "rr": 1})
 P_STOCH = world.profile(net="stochastic", stations=(1, 4), faults={"crash": 0.3}, resume_modes=["rerun"], noise=0.3,
                         party={"scripted": 2, "uncontrolled": 3, "greedy": 2}, evse_kinds={"cont": 3, "finite": 2},
@@ -90,6 +90,7 @@ def check(sc):
     out.probe("resume_json", sum(1 for r in tr.resumes if r["mode"] != "rerun"))
     out.probe("stochastic_world", 1 if sc["network"]["kind"] == "stochastic" else 0)
     out.probe("noisy_battery", 1 if tr.noise_draws else 0)
+    out.probe("second_life", tr.fault_counts.get("second_life", 0))
     out.probe("party_charged_its_ev_copies", tr.fault_counts.get("mutate", 0))
     out.nontrivial = batt_lim > 0 and vac > 0
     if not ok or out.viol:
